@@ -10,6 +10,7 @@ import (
 	"runtime"
 	"sort"
 	"strconv"
+	"strings"
 	"sync"
 	"time"
 )
@@ -40,8 +41,9 @@ type Leg struct {
 }
 
 // WorkerMain is the body of `verifsim worker`.
-func WorkerMain(e Engine, opt RunOpt, seed uint64, start, stride, count, offset int, deadline time.Time, progress string) {
+func WorkerMain(e Engine, opt RunOpt, seed uint64, start, stride, count, offset int, deadline time.Time, progress string, hashFile string) {
 	out := WorkerOut{Agg: NewAgg()}
+	var hashes strings.Builder
 	seen := map[string]bool{}
 	for i := start; i < count; i += stride {
 		if !deadline.IsZero() && time.Now().After(deadline) {
@@ -57,6 +59,9 @@ func WorkerMain(e Engine, opt RunOpt, seed uint64, start, stride, count, offset 
 		t := NewTape(rs)
 		v := e.Run(t, opt, out.Agg)
 		out.RunsDone++
+		if hashFile != "" {
+			fmt.Fprintf(&hashes, "%d %016x %d\n", idx, out.Agg.RunHash(), t.Consumed())
+		}
 		if v != nil {
 			out.NViolating++
 			if !seen[v.Sig] && len(out.Violations) < 4 {
@@ -67,6 +72,9 @@ func WorkerMain(e Engine, opt RunOpt, seed uint64, start, stride, count, offset 
 				out.Violations = append(out.Violations, v)
 			}
 		}
+	}
+	if hashFile != "" {
+		os.WriteFile(hashFile, []byte(hashes.String()), 0o644)
 	}
 	out.Agg.Pack()
 	enc := json.NewEncoder(os.Stdout)
@@ -148,6 +156,11 @@ func RunLeg(propID string, seed uint64, leg *Leg, deadline time.Time, total *Agg
 				v, e := leg.OnWorkerDeath(leg, r.idx, r.code, r.stderr, r.out.RunsDone)
 				if e != nil {
 					return nil, 0, e
+				}
+				if v != nil && strings.HasPrefix(v.Sig, "NOTE:") {
+					total.Note(v.Detail)
+					total.Inc("worker_deaths_reported_as_note")
+					continue
 				}
 				if v != nil {
 					viol = append(viol, v)
